@@ -410,6 +410,24 @@ where
                 Err(e) => err_line(&e),
             }
         }
+        "readdirplus" => {
+            // readdirplus I H size off -> name:dev:ino:mode of every entry's looked-up attributes (the references taken are forgotten)
+            let mut names: Vec<String> = vec![];
+            let mut got: Vec<u64> = vec![];
+            let r = fs.readdirplus(&root, ino(s, a[1]), hnd(s, a[2]), num(a[3]) as u32, num(a[4]), &mut |d: DirEntry, e: Entry| {
+                names.push(format!("{}:{}:{}:{}", hex(d.name), e.attr.st_dev, e.attr.st_ino, e.attr.st_mode));
+                got.push(e.inode);
+                Ok(1)
+            });
+            for i in got {
+                fs.forget(&root, F::Inode::from(i), 1);
+            }
+            match r {
+                Ok(()) => format!("errno=0 pents={}", if names.is_empty() { "-".to_string() } else { names.join(",") }),
+                Err(e) => err_line(&e),
+            }
+        }
+        "fsyncdir" => unit(fs.fsyncdir(&root, ino(s, a[1]), num(a[3]) != 0, hnd(s, a[2]))),
         "setxattr" => unit(fs.setxattr(&root, ino(s, a[1]), &cstr(a[2]), &unhex(a[3]), num(a[4]) as u32)),
         "getxattr" => match fs.getxattr(&root, ino(s, a[1]), &cstr(a[2]), num(a[3]) as u32) {
             Ok(GetxattrReply::Value(v)) => format!("errno=0 data={}", hex(&v)),
@@ -444,6 +462,7 @@ struct Shadow {
     fds: Vec<i32>,       // inode slots: O_PATH fds (-1 = failed)
     hs: Vec<(i32, i32)>, // handle slots: (fd, inode slot)
     hflags: Vec<u32>,    // flags last applied to the descriptor of each handle slot
+    direct_io: bool,     // allow_direct_io: otherwise O_DIRECT is stripped from open and F_SETFL flags
     writeback: bool,
     no_open: bool,
     no_opendir: bool,
@@ -581,6 +600,8 @@ impl Shadow {
             return Err(libc::EBADF); // special files and symlinks are never opened
         }
         let p = CString::new(format!("/proc/self/fd/{}", fd)).unwrap();
+        let mut flags = flags;
+        if !self.direct_io { flags &= !libc::O_DIRECT; }
         let r = unsafe { libc::open(p.as_ptr(), (flags & !libc::O_NOFOLLOW & !libc::O_CREAT) | libc::O_CLOEXEC) };
         if r < 0 {
             Err(last())
@@ -958,8 +979,10 @@ impl Shadow {
                     let cur = if tmp { (if a[0] == "read" { libc::O_RDONLY } else { libc::O_RDWR }) as u32 } else { let i: usize = a[2].parse().unwrap(); self.hflags[i] };
                     if cur != want {
                         // reference: under writeback the descriptor never carries O_APPEND (the client kernel owns it), exactly as at open
-                        // ... and never O_DIRECT (allow_direct_io is off: open strips it)
-                        let r = unsafe { libc::fcntl(fd, libc::F_SETFL, self.wb_flags(want as i32) & !libc::O_DIRECT) };
+                        // ... and O_DIRECT only with allow_direct_io, as open does
+                        let mut hf = self.wb_flags(want as i32);
+                        if !self.direct_io { hf &= !libc::O_DIRECT; }
+                        let r = unsafe { libc::fcntl(fd, libc::F_SETFL, hf) };
                         if r != 0 {
                             let c = last();
                             if tmp { unsafe { libc::close(fd) }; }
@@ -1019,6 +1042,29 @@ impl Shadow {
                     unsafe { libc::close(fd) };
                 }
                 out
+            }
+            "fsyncdir" => {
+                let (fd, tmp) = if self.no_opendir {
+                    match self.reopen(self.fd(a[1]), libc::O_RDONLY | libc::O_DIRECTORY) {
+                        Ok(f) => (f, true),
+                        Err(c) => return e(c),
+                    }
+                } else {
+                    (self.h(a[2], a[1]), false)
+                };
+                if fd < 0 {
+                    return e(libc::EBADF);
+                }
+                let r = unsafe { if num(a[3]) != 0 { libc::fdatasync(fd) } else { libc::fsync(fd) } };
+                let c = last();
+                if tmp {
+                    unsafe { libc::close(fd) };
+                }
+                if r != 0 {
+                    e(c)
+                } else {
+                    ok()
+                }
             }
             "lseek" => {
                 let fd = self.h(a[2], a[1]);
@@ -1236,6 +1282,7 @@ fn main() {
                     xattr: b("xattr"),
                     inode_file_handles: b("inode_file_handles"),
                     use_host_ino: b("use_host_ino"),
+                    allow_direct_io: !b("no_direct_io"),
                     cache_policy: match cfg.get("cache").map(|s| s.as_str()) {
                         Some("never") => CachePolicy::Never,
                         Some("metadata") => CachePolicy::Metadata,
@@ -1288,7 +1335,7 @@ fn main() {
                         if fd < 0 {
                             return Err(format!("open root: {}", last()));
                         }
-                        Ok(Target::Shadow(Shadow { fds: vec![fd], hs: vec![], hflags: vec![], writeback: b("writeback"), no_open: b("no_open"), no_opendir: b("no_opendir"), killpriv: b("killpriv_v2"), xattr: b("xattr") }))
+                        Ok(Target::Shadow(Shadow { fds: vec![fd], hs: vec![], hflags: vec![], direct_io: !b("no_direct_io"), writeback: b("writeback"), no_open: b("no_open"), no_opendir: b("no_opendir"), killpriv: b("killpriv_v2"), xattr: b("xattr") }))
                     }
                     m => Err(format!("unknown mode {}", m)),
                 })();
